@@ -14,8 +14,10 @@ import (
 	"math"
 
 	"github.com/EliCDavis/polyform/formats/splat"
+	"github.com/EliCDavis/polyform/formats/spz"
 
 	"verif/harness/core"
+	"verif/harness/meshlib"
 )
 
 func plusMinus(vs ...float64) []float64 {
@@ -106,4 +108,40 @@ func (k *checker) runAfterFailedWriteReplay() {
 		return
 	}
 	k.c.Eval("splat/after-failed-write", "ok")
+}
+
+// a load after the file was replaced (core.LoadAfterReplace): spz.Load of a path whose file was
+// replaced by another stream — of the same size (stored gzip blocks, same point count) or another —
+// with the modification time put back.
+func (k *checker) runLoadAfterReplace() {
+	if !k.mine() {
+		return
+	}
+	k.runLoadAfterReplaceReplay()
+}
+
+func (k *checker) runLoadAfterReplaceReplay() {
+	mk := func(p, version, deg, n int, stored bool) []byte {
+		f := SpzFile{Version: version, Deg: deg, FB: 12}
+		raw := refEncodeSpz(f, baseRecs(p, version, deg, n))
+		if stored {
+			return gzipStored(raw)
+		}
+		return gzipDeflate(raw)
+	}
+	files := [][]byte{mk(1, 2, 1, 5, true), mk(2, 2, 1, 5, true), mk(3, 2, 0, 9, true), mk(4, 2, 0, 9, true), mk(5, 1, 2, 7, false), mk(6, 2, 3, 4, false)}
+	k.c.Nontrivial("load-after-replace")
+	why := core.LoadAfterReplace(".spz", files, func(path string) (string, error) {
+		cl, err := spz.Load(path)
+		if err != nil || cl == nil {
+			return "", err
+		}
+		return fmt.Sprintf("%+v|%x", cl.Header, meshlib.QuickHash(cl.Mesh)), nil
+	})
+	if why != "" {
+		k.c.Eval("spz/load-after-replace", "mismatch")
+		k.fail("spz.Load", "loading a path yields the cloud the file holds now", "load-after-replace", why, Case{Kind: "load-after-replace"})
+		return
+	}
+	k.c.Eval("spz/load-after-replace", "ok")
 }
